@@ -29,10 +29,10 @@ type Viol struct {
 }
 
 type Ctx struct {
-	viols   []Viol
-	line    int
-	notes   map[string]int
-	samples []string
+	viols    []Viol
+	line     int
+	notes    map[string]int
+	samples  []string
 	perClass map[string]int
 }
 
